@@ -164,6 +164,12 @@ class ProcPart(Part):
             for _ in range(rng.randint(0, 4)):
                 ops.append(rng.choice([("send", next(fresh_op)), ("poison",), ("stop",)]))
             cases.append({"input": build_script(items, rng.randint(0, 3), rng.randrange(4), lifecycle=lc, ops=ops), "class": "random"})
+        # every fifth scenario runs with the scripted actor spawned by Context.SpawnChild from an otherwise idle
+        # parent instead of Engine.Spawn (same options, same script: the model is that of one process either way)
+        for k, c in enumerate(cases):
+            if k % 5 == 2 and not c["input"].get("decoy"):
+                c["input"]["as_child"] = True
+                c["class"] += "_as_child"
         return cases
 
     def to_coq(self, inp, obs):
